@@ -193,10 +193,11 @@ func conformBlocking(sc env.StepScript, stepID string, sendCancel bool) (real, f
 		}
 	}
 	if !ok {
-		// the deployer kills the plugin: the pipes break and the plugin's work ends
-		_ = conn.Close()
-		stdinWriter.Close()
+		// the deployer kills the plugin: the pipes break (first, so that no late answer can get through:
+		// the model's connection break loses it as well) and the plugin's work ends
 		stdoutReader.Close()
+		stdinWriter.Close()
+		_ = conn.Close()
 		if r, ok = waitFor(3); ok {
 			real.Phase = 3
 		}
